@@ -77,6 +77,23 @@ Theorem C17_get_after_remove : forall (n m : bytes) (hs : headers), uniq hs ->
   get_raw n (snd (remove_raw m hs)) = if name_eq n m then None else get_raw n hs.
 Proof. exact get_after_remove. Qed.
 
+(* setting a field twice is setting the last value: the second set of a name (in any letter case) leaves exactly the map that
+   setting it alone would have left - same position, same value, whatever the first value was (seeded change C12-m17 kept the first
+   value when the two raw texts were equal) *)
+Theorem C17_set_twice : forall (v1 v2 : hval) (hs : headers), name_eq (h_name v2) (h_name v1) = true ->
+  insert_raw v2 (insert_raw v1 hs) = insert_raw v2 hs.
+Proof.
+  intros v1 v2 hs H. apply name_eq_key in H.
+  induction hs as [|h r IH]; cbn [insert_raw].
+  - destruct (name_eq (h_name v2) (h_name v1)) eqn:E; [reflexivity|]. apply name_eq_key_false in E. contradiction.
+  - destruct (name_eq (h_name v1) (h_name h)) eqn:E1.
+    + apply name_eq_key in E1. cbn [insert_raw].
+      assert (E2 : name_eq (h_name v2) (h_name h) = true) by (apply name_eq_key; congruence). rewrite E2.
+      assert (E3 : name_eq (h_name v2) (h_name v1) = true) by (apply name_eq_key; exact H). rewrite E3. reflexivity.
+    + apply name_eq_key_false in E1. cbn [insert_raw].
+      assert (E2 : name_eq (h_name v2) (h_name h) = false) by (apply name_eq_key_false; congruence). rewrite E2. rewrite IH. reflexivity.
+Qed.
+
 (* every header map reachable by any sequence of set / get / remove from the empty map holds at most
    one field per name (case-insensitively) - C02's "one per name" *)
 Theorem C17_names_unique : forall ops : list hop, uniq (snd (run_hops ops [])).
@@ -150,3 +167,4 @@ Print Assumptions C17_mime_version_roundtrip.
 Print Assumptions C17_cte_roundtrip.
 Print Assumptions C17_cte_parse_exact.
 Print Assumptions C17_content_disposition_readback.
+Print Assumptions C17_set_twice.
